@@ -3,7 +3,9 @@
 (* terminal.go, one NDJSON event per linearization point, projected by lib/props/c08.py) must be behaviours of     *)
 (* the request/serve/publish/show protocol, and every published or shown result must be the sequential filter of   *)
 (* the snapshot it was computed for.  Oracle[key] = what a fresh `fzf --filter` prints for (query, first n input    *)
-(* lines, sort flag) - the property's own yardstick; filter mode itself is bound to the specification by C01/C04.  *)
+(* lines of the input belonging to the request's revision, minus excluded items, sort flag) - the property's own    *)
+(* yardstick; filter mode itself is bound to the specification by C01/C04.  The revision [major, minor] identifies  *)
+(* the input generation (reload bumps major) and the exclusion set (exclude bumps minor).                           *)
 (*                                                                                                                  *)
 (* Events (field ev):                                                                                               *)
 (*   start      sid                                   a new session begins (state reset)                            *)
@@ -27,7 +29,8 @@ VARIABLES l,        \* next event
           sid, issued, no, picked, pubs, shown, lastReset, dev, ended
 vars == <<l, sid, issued, no, picked, pubs, shown, lastReset, dev, ended>>
 
-Key(s, q, n, sort) == ToString(s) \o "|" \o q \o "|" \o ToString(n) \o "|" \o (IF sort THEN "s" ELSE "u")
+Key(s, q, n, sort, rev) == ToString(s) \o "|" \o q \o "|" \o ToString(n) \o "|" \o (IF sort THEN "s" ELSE "u")
+                           \o "|" \o ToString(rev[1]) \o "." \o ToString(rev[2])
 ReqOf(e, n) == [q |-> e.q, count |-> e.count, final |-> e.final, sort |-> e.sort, rev |-> e.rev, no |-> n]
 Same(r, e) == r.q = e.q /\ r.count = e.count /\ r.final = e.final /\ r.sort = e.sort /\ r.rev = e.rev
 
@@ -72,6 +75,7 @@ TPick == /\ Is("pick") /\ Len(Ev.saw) > 0
 
 TCacheHit == /\ Is("cachehit") /\ picked # None /\ Same(picked, Ev)
              /\ \E i \in 1..Len(pubs) : pubs[i].q = Ev.q /\ pubs[i].count = Ev.count /\ pubs[i].sort = Ev.sort /\ pubs[i].final = Ev.final
+                                         /\ pubs[i].rev = Ev.rev
              /\ UNCHANGED <<sid, issued, no, picked, pubs, shown, lastReset, dev, ended>>
 
 (* a scan is abandoned only for a cancelling request that arrived after it was picked *)
@@ -80,11 +84,17 @@ TCancelled == /\ Is("cancelled") /\ picked # None /\ Same(picked, Ev) /\ issued[
               /\ UNCHANGED <<sid, issued, no, pubs, shown, lastReset, dev, ended>>
 
 (* C13/C08: the published result is the sequential filter of exactly the snapshot the request carried *)
+(* Deviation StaleChunkCache (finding F17): after an exclusion the coordinator clears the chunk cache, but an older   *)
+(* request that is served afterwards refills it, and the request carrying the exclusion is then answered from those  *)
+(* entries: the result is that of the previous exclusion generation.                                                 *)
 TPublish == /\ Is("publish") /\ picked # None /\ Same(picked, Ev)
-            /\ Ev.res = Oracle[Key(sid, Ev.q, Ev.count, Ev.sort)]
-            /\ pubs' = Append(pubs, [q |-> Ev.q, count |-> Ev.count, final |-> Ev.final, sort |-> Ev.sort, res |-> Ev.res, no |-> picked.no])
+            /\ \/ Ev.res = Oracle[Key(sid, Ev.q, Ev.count, Ev.sort, Ev.rev)] /\ dev' = dev
+               \/ /\ Ev.res # Oracle[Key(sid, Ev.q, Ev.count, Ev.sort, Ev.rev)] /\ Ev.rev[2] > 0
+                  /\ Ev.res = Oracle[Key(sid, Ev.q, Ev.count, Ev.sort, <<Ev.rev[1], Ev.rev[2] - 1>>)]
+                  /\ dev' = dev \cup {"StaleChunkCache"}
+            /\ pubs' = Append(pubs, [q |-> Ev.q, count |-> Ev.count, final |-> Ev.final, sort |-> Ev.sort, rev |-> Ev.rev, res |-> Ev.res, no |-> picked.no])
             /\ picked' = None
-            /\ UNCHANGED <<sid, issued, no, shown, lastReset, dev, ended>>
+            /\ UNCHANGED <<sid, issued, no, shown, lastReset, ended>>
 
 (* the terminal shows a published result - one of the last two (EvtSearchFin is a one-slot box the coordinator     *)
 (* may read just before a newer publish lands), never an older one again                                            *)
@@ -99,7 +109,7 @@ TQuery == /\ Is("query") /\ UNCHANGED <<sid, issued, no, picked, pubs, shown, la
 
 (* C08: at quiescence the list is the fresh filter of the current query over everything loaded *)
 Converged(e) == /\ shown # None /\ shown.final /\ shown.count = e.total /\ shown.sort = e.sort
-                /\ shown.res = Oracle[Key(sid, e.q, e.total, e.sort)]
+                /\ shown.res = Oracle[Key(sid, e.q, e.total, e.sort, lastReset.rev)]
                 /\ lastReset # None /\ shown.no = lastReset.no
                 /\ e.getres = shown.res /\ e.matchCount = (IF Len(shown.res) = 2 /\ shown.res[1] > 64 THEN shown.res[1] ELSE Len(shown.res))
 TEnd == /\ Is("end") /\ issued["retry"] = <<>> /\ issued["reset"] = <<>> /\ picked = None
@@ -112,5 +122,5 @@ Spec == Init /\ [][Next]_vars
 
 Accepted == TLCGet("stats").diameter - 1 = Len(TraceLog)
 (* reported per session when its end is reached: with or without the help of a deviation action *)
-DevSeen == ended => PrintT(<<"END", sid, IF dev = {} THEN 0 ELSE 1>>)
+DevSeen == ended => PrintT(<<"END", sid, IF dev = {} THEN 0 ELSE IF dev = {"StaleChunkCache"} THEN 2 ELSE 1>>)
 =============================================================================
